@@ -10,7 +10,10 @@
    month / day borrow through the previous month).
    pd_rebuild / pd_rust_rebuild (full strength since the repair of finding exact-month-arm): adding the reported components
    back to the start with the translated helpers.add_duration gives exactly the end, for both backends.  Proof: symbolic in the
-   years and in the month lengths (Proofs/C06Rebuild.v: ymd2ord is linear in the day, one month back is dbm_step). *)
+   years and in the month lengths (Proofs/C06Rebuild.v: ymd2ord is linear in the day, one month back is dbm_step).
+   rs_precise_diff takes the two operands only (since the repair of finding rs-second-operand-subclass): the compiled helper tests
+   both with is_type_of, so every pd_rust_* theorem below holds whatever datetime subclass (e.g. pendulum.DateTime) either operand
+   is an instance of — there is no "second operand is exactly datetime.datetime" side condition any more. *)
 From Coq Require Import ZArith Bool.
 From PV Require Import Lib.PyBase Spec.Cal Gen.Helpers Model.RustHelpers Model.PdBase Gen.PreciseDiff Model.RustPreciseDiff Model.PdInterval.
 From PV Require Import Proofs.C06Facts Proofs.C06Spec Proofs.C06Dates Proofs.C06Rebuild Proofs.C06Interval Proofs.C06Rust Proofs.C06Thms.
@@ -46,18 +49,18 @@ Print Assumptions pd_time_exact.
 
 (* the compiled helper (hand model) reports the same components as the pure-Python helper *)
 Theorem pd_rust_eq_python : forall a b, dt_pair a b -> 1 <= p_year a -> p_wall a < p_wall b ->
-  py_precise_diff a b = Ok (rs_precise_diff a b true).
+  py_precise_diff a b = Ok (rs_precise_diff a b).
 Proof. exact rs_eq_py. Qed.
 Print Assumptions pd_rust_eq_python.
 
 Theorem pd_rust_characterisation : forall a b, dt_pair a b -> 1 <= p_year a -> p_wall a < p_wall b ->
-  pd_spec a b (rs_precise_diff a b true) /\
-  pd_total_days (rs_precise_diff a b true) =
+  pd_spec a b (rs_precise_diff a b) /\
+  pd_total_days (rs_precise_diff a b) =
     Model.RustHelpers.rs_day_number (p_year b) (p_month b) (p_day b) - Model.RustHelpers.rs_day_number (p_year a) (p_month a) (p_day a).
 Proof. exact rs_pd_spec. Qed.
 Print Assumptions pd_rust_characterisation.
 
-Theorem pd_rust_ranges : forall a b, dt_pair a b -> 1 <= p_year a -> p_wall a < p_wall b -> in_ranges (rs_precise_diff a b true).
+Theorem pd_rust_ranges : forall a b, dt_pair a b -> 1 <= p_year a -> p_wall a < p_wall b -> in_ranges (rs_precise_diff a b).
 Proof. exact rs_pd_ranges. Qed.
 Print Assumptions pd_rust_ranges.
 
@@ -75,7 +78,7 @@ Print Assumptions pd_rebuild.
 
 (* the same for the compiled helper (hand model) *)
 Theorem pd_rust_rebuild : forall a b, op_pair a b -> 1 <= p_year a -> p_year b <= 9999 -> p_wall a <= p_wall b ->
-  in_ranges (rs_precise_diff a b true) /\ rebuilds a b (rs_precise_diff a b true).
+  in_ranges (rs_precise_diff a b) /\ rebuilds a b (rs_precise_diff a b).
 Proof. exact rs_pd_rebuild. Qed.
 Print Assumptions pd_rust_rebuild.
 
@@ -87,7 +90,7 @@ Proof. exact py_pd_rebuild_same. Qed.
 Print Assumptions pd_rebuild_same_tzinfo.
 
 Theorem pd_rust_rebuild_same_tzinfo : forall a b, op_pair a b -> same_tzinfo a b -> 1 <= p_year a -> p_year b <= 9999 -> p_wall a <= p_wall b ->
-  let r := rs_precise_diff a b true in
+  let r := rs_precise_diff a b in
   pd_add_duration a (pd_years r) (pd_months r) 0 (pd_days r) (pd_hours r) (pd_minutes r) (pd_seconds r) (pd_microseconds r) = Ok b.
 Proof. exact rs_pd_rebuild_same. Qed.
 Print Assumptions pd_rust_rebuild_same_tzinfo.
@@ -101,7 +104,7 @@ Proof. exact py_iv_rebuild. Qed.
 Print Assumptions iv_rebuild.
 
 Theorem iv_rust_rebuild : forall a b, op_pair a b -> 1 <= p_year a -> p_year b <= 9999 -> p_wall a <= p_wall b ->
-  dt_add_ivc a (iv_components (rs_precise_diff a b true) (iv_elapsed a b)) = Ok (p_retz a b).
+  dt_add_ivc a (iv_components (rs_precise_diff a b) (iv_elapsed a b)) = Ok (p_retz a b).
 Proof. exact rs_iv_rebuild. Qed.
 Print Assumptions iv_rust_rebuild.
 
@@ -126,24 +129,35 @@ Theorem pd_ranges_dates : forall a b, date_pair a b -> p_wall a <= p_wall b ->
 Proof. exact py_pd_ranges_date. Qed.
 Print Assumptions pd_ranges_dates.
 
-Theorem pd_rust_eq_python_dates : forall a b e, date_pair a b -> 1 <= p_year a -> p_wall a < p_wall b ->
-  py_precise_diff a b = Ok (rs_precise_diff a b e).
+Theorem pd_rust_eq_python_dates : forall a b, date_pair a b -> 1 <= p_year a -> p_wall a < p_wall b ->
+  py_precise_diff a b = Ok (rs_precise_diff a b).
 Proof. exact rs_eq_py_date. Qed.
 Print Assumptions pd_rust_eq_python_dates.
 
 (* the former witnesses of finding exact-month-arm (2021-05-02 -> 2021-06-01, 2021-01-30 -> 2021-02-27): 30 / 28 days, rebuilt, both backends *)
 Theorem pd_rebuild_former_witnesses :
   py_precise_diff (naive_dt 2021 5 2 0 0 0 0) (naive_dt 2021 6 1 0 0 0 0) = Ok (mkPD 0 0 30 0 0 0 0 30) /\
-  rs_precise_diff (naive_dt 2021 5 2 0 0 0 0) (naive_dt 2021 6 1 0 0 0 0) true = mkPD 0 0 30 0 0 0 0 30 /\
+  rs_precise_diff (naive_dt 2021 5 2 0 0 0 0) (naive_dt 2021 6 1 0 0 0 0) = mkPD 0 0 30 0 0 0 0 30 /\
   rebuilds (naive_dt 2021 5 2 0 0 0 0) (naive_dt 2021 6 1 0 0 0 0) (mkPD 0 0 30 0 0 0 0 30) /\
   py_precise_diff (naive_dt 2021 1 30 0 0 0 0) (naive_dt 2021 2 27 0 0 0 0) = Ok (mkPD 0 0 28 0 0 0 0 28) /\
-  rs_precise_diff (naive_dt 2021 1 30 0 0 0 0) (naive_dt 2021 2 27 0 0 0 0) true = mkPD 0 0 28 0 0 0 0 28 /\
+  rs_precise_diff (naive_dt 2021 1 30 0 0 0 0) (naive_dt 2021 2 27 0 0 0 0) = mkPD 0 0 28 0 0 0 0 28 /\
   rebuilds (naive_dt 2021 1 30 0 0 0 0) (naive_dt 2021 2 27 0 0 0 0) (mkPD 0 0 28 0 0 0 0 28).
 Proof. exact former_witnesses_rebuild. Qed.
 Print Assumptions pd_rebuild_former_witnesses.
 
+(* the former witness of finding rs-second-operand-subclass (two pendulum.DateTime in UTC passed directly, 10:00 -> 12:30 on
+   2021-01-01; the compiled helper reported hours = -10): 2 h 30 min, both backends, both directions, rebuilt *)
+Theorem pd_rust_former_subclass_witness :
+  dt_pair (utc_named_dt 2021 1 1 10 0 0 0) (utc_named_dt 2021 1 1 12 30 0 0) /\
+  py_precise_diff (utc_named_dt 2021 1 1 10 0 0 0) (utc_named_dt 2021 1 1 12 30 0 0) = Ok (mkPD 0 0 0 2 30 0 0 0) /\
+  rs_precise_diff (utc_named_dt 2021 1 1 10 0 0 0) (utc_named_dt 2021 1 1 12 30 0 0) = mkPD 0 0 0 2 30 0 0 0 /\
+  rs_precise_diff (utc_named_dt 2021 1 1 12 30 0 0) (utc_named_dt 2021 1 1 10 0 0 0) = mkPD 0 0 0 (-2) (-30) 0 0 0 /\
+  rebuilds (utc_named_dt 2021 1 1 10 0 0 0) (utc_named_dt 2021 1 1 12 30 0 0) (mkPD 0 0 0 2 30 0 0 0).
+Proof. exact former_subclass_witness. Qed.
+Print Assumptions pd_rust_former_subclass_witness.
+
 (* current code: outside the zero-offset domain the two backends differ (cross-zone pair whose UTC shift leaves the month) *)
 Theorem pd_rust_eq_python_cross_zone_refuted : exists a b,
-  py_precise_diff a b = Ok (mkPD 0 1 3 0 30 0 0 31) /\ rs_precise_diff a b true = mkPD 0 1 0 0 30 0 0 31.
+  py_precise_diff a b = Ok (mkPD 0 1 3 0 30 0 0 31) /\ rs_precise_diff a b = mkPD 0 1 0 0 30 0 0 31.
 Proof. exact rs_cross_zone_refuted. Qed.
 Print Assumptions pd_rust_eq_python_cross_zone_refuted.
